@@ -119,6 +119,22 @@ let () =
           | kind :: rest -> Ops.line kind rest l
           | [] -> ())
         lines;
+      (* lock edges and retained requests reported by the harness for the whole case (C17) *)
+      (match Hashtbl.find_opt impl_raw id with
+       | Some ls ->
+           let cls = function
+             | "realm" -> Some LRealm | "subrealm" -> Some LSubrealm | "conf" -> Some LConf | "global" -> Some LGlobal
+             | "newrq" -> Some LNewrq | "slot" -> Some LSlot | "srvlock" -> Some LSrvlock | "replyq" -> Some LReplyq
+             | "leaf" -> Some LLeaf | _ -> None in
+           List.iter (fun l -> match split_ws l with
+               | [ "lock"; a; b ] ->
+                   (match cls a, cls b with
+                    | Some ca, Some cb -> Util.spec (max 0 (ctx.opidx - 1)) "C17_lock_order" (edge_ok ca cb) (Printf.sprintf "%s held while acquiring %s" a b)
+                    | _ -> Util.spec (max 0 (ctx.opidx - 1)) "C17_lock_order" false (Printf.sprintf "unknown class %s %s" a b))
+               | "leak" :: op :: rest ->
+                   Util.spec (try int_of_string op with _ -> 0) "C17_released" false ("still allocated, held by nobody: " ^ String.concat " " rest)
+               | _ -> ()) ls
+       | None -> ());
       pr "end\n";
       print_string (Buffer.contents out);
       Buffer.clear out)
